@@ -519,7 +519,7 @@ def copies(chk, P):
     for b, i, e in vw:
         for h in pc.loops_of(b)[:1]:
             heads[h] = (b, e)
-    chk.judge(len(heads) == 2, "COPY", pc.id + ":two-version-loops", pc.loc, "stage versions are written in two loops (copied part, invalidated part); found %d" % len(heads))
+    chk.shape(len(heads) == 2, "COPY", pc.id + ":two-version-loops", pc.loc, "stage versions are written in two loops (copied part, invalidated part); found %d" % len(heads))
     covers_end = False
     starts_zero = False
     raised = False
